@@ -201,6 +201,9 @@ struct MsWorld {
     funds: BigUint,
     /// (owner, caller) pairs whitelisted in the permissions hub (generator hint only)
     wl: Vec<(u64, u64)>,
+    /// ops left of a "week just passed" burst: stakes WITH merging (own and on-behalf), the path on which both farms pay the
+    /// owner's pending boosted rewards of the completed week to the proxy, which must forward them
+    boost_burst: u8,
 }
 
 struct Fails(Vec<(String, String)>);
@@ -618,7 +621,7 @@ impl World for MsWorld {
         }
         MsWorld {
             b, owner, users, ef, pair, lpfarm, stk, proxy, hub, block, round, epoch: 0,
-            pen, minfarm, unbond_epochs: unbond, released: NMap::new(), seen_attr: BTreeMap::new(), funds, wl: vec![],
+            pen, minfarm, unbond_epochs: unbond, released: NMap::new(), seen_attr: BTreeMap::new(), funds, wl: vec![], boost_burst: 0,
         }
     }
 
@@ -643,12 +646,24 @@ impl World for MsWorld {
         ];
         let mut k = if step < 3 || !any_dy { if rng.chance(3, 4) { 0 } else { rng.weighted(&weights) } } else { rng.weighted(&weights) };
         if step == 1 && rng.chance(1, 2) { k = 8; }
+        let mut force_merge = false;
+        if self.boost_burst > 0 && any_dy {
+            self.boost_burst -= 1;
+            k = if !self.wl.is_empty() && rng.chance(1, 2) { 6 } else { 0 };
+            force_merge = true;
+        }
         // on-behalf calls: mostly by a caller some owner has whitelisted
         let mut behalf_owner = rng.range(1, nu);
         if (k == 6 || k == 7) && !self.wl.is_empty() && rng.chance(4, 5) {
             let (o, c) = *rng.pick(&self.wl);
             u = c;
             behalf_owner = o;
+        }
+        if force_merge && k == 0 {
+            let holders: Vec<u64> = (1..=nu).filter(|x| !s.users[(*x - 1) as usize].dy.is_empty()).collect();
+            if !holders.is_empty() {
+                u = *rng.pick(&holders);
+            }
         }
         let ui = (u - 1) as usize;
         let my_dy: Vec<(u64, BigUint)> = s.users[ui].dy.iter().map(|(n, a)| (*n, a.clone())).collect();
@@ -686,8 +701,10 @@ impl World for MsWorld {
                     _ => rng.big_range(&one, &lp_scale),
                 };
                 let extra = match rng.below(4) { 0 => rng.big_range(&one, &(&a + &one)), 1 => one.clone(), _ => BigUint::zero() };
-                let src = if rng.chance(1, 4) { "left" } else { "fresh" };
-                let merge = if !my_dy.is_empty() && rng.chance(2, 5) {
+                let src = if rng.chance(if force_merge { 2 } else { 1 }, 4) { "left" } else { "fresh" };
+                // leftovers must exist for `src=left` to mean something: in a burst always keep some extra in the farm
+                let extra = if force_merge && extra.is_zero() { &a / 2u32 + &one } else { extra };
+                let merge = if !my_dy.is_empty() && (force_merge || rng.chance(2, 5)) {
                     let cnt = rng.range(1, 3.min(my_dy.len() as u64));
                     let mut v = vec![];
                     for _ in 0..cnt {
@@ -701,6 +718,9 @@ impl World for MsWorld {
                 } else {
                     // caller c acts for owner o; the position is entered by `src` (normally o)
                     let o = behalf_owner;
+                    if rng.chance(if force_merge { 3 } else { 1 }, 4) {
+                        return ('O', format!("stakeFor u{u} u{o} lp={a} extra={extra} src=left merge={merge}"));
+                    }
                     let srcu = if rng.chance(1, 8) { rng.range(1, nu) } else { o };
                     ('O', format!("stakeFor u{u} u{o} lp={a} extra={extra} src=u{srcu} merge={merge}"))
                 }
@@ -748,6 +768,9 @@ impl World for MsWorld {
                     6 => (rng.range(1, 100), rng.range(1, 10), rng.range(1, 30)),
                     _ => (rng.range(1, 20), rng.range(1, 20), 0),
                 };
+                if ep >= 7 {
+                    self.boost_burst = 3;
+                }
                 ('O', format!("advance {bk} {rd} {ep}"))
             }
             5 => {
@@ -816,9 +839,24 @@ impl World for MsWorld {
                         lpfarm_nonce = self.enter_lp_farm(c, &(&a + &extra)).unwrap_or(0);
                     }
                 } else {
+                    if src == "left" {
+                        // a leftover LP-farm position of the OWNER (entered in an earlier week: his boosted rewards of the weeks
+                        // since then are still pending when the proxy merges on his behalf), handed to the caller
+                        let oa = self.user(o);
+                        let last = self.snap().last_lpfarm;
+                        for n in (1..=last).rev() {
+                            if self.bal(&oa, LPFARM, n) >= a {
+                                if o != c { self.move_nft(&oa, &ca, LPFARM, n, &a); }
+                                lpfarm_nonce = n;
+                                break;
+                            }
+                        }
+                    }
                     let srcu = uid(src);
                     let srcu = if self.valid_user(srcu) { srcu } else { o };
-                    if let Some(n) = self.enter_lp_farm(srcu, &(&a + &extra)) {
+                    if lpfarm_nonce != 0 {
+                        // found a leftover position
+                    } else if let Some(n) = self.enter_lp_farm(srcu, &(&a + &extra)) {
                         let sa = self.user(srcu);
                         if srcu != c { self.move_nft(&sa, &ca, LPFARM, n, &a); }
                         lpfarm_nonce = n;
